@@ -5,7 +5,7 @@
    "largest first as far as funds allow" is checked by the monitor; here: the sort, and each closing operation. *)
 From Coq Require Import ZArith QArith List Sorting.Sorted Sorting.Permutation.
 From Basana Require Import Num.DecQ Num.DecQProofs Exchange.Model Exchange.AcctProofs Exchange.StepProofs
-     Exchange.OpProofs Exchange.LoanProofs Exchange.Prims Exchange.Structure Exchange.LoanLife.
+     Exchange.OpProofs Exchange.LoanProofs Exchange.Prims Exchange.Structure Exchange.LoanLife Exchange.AutoRepayProofs.
 Import ListNotations.
 Open Scope Q_scope.
 
@@ -79,3 +79,10 @@ Theorem C11_closed_loans_never_change_again : forall c ops s i l,
   nth_error (s_loans s) i = Some l -> l_open l = false -> nth_error (s_loans (run c s ops)) i = Some l.
 Proof. exact closed_loans_final. Qed.
 Print Assumptions C11_closed_loans_never_change_again.
+
+(* when an auto-repay order closes, the loop over the candidate loans (largest first) never aborts: each repayment either
+   succeeds or is skipped for lack of funds *)
+Theorem C11_autorepay_loop_never_aborts : forall c s o,
+  RJ s -> stored s o -> check_infos c s (s_loans s) = Ok tt -> exists s' o', repay_loans c s o = Done s' o'.
+Proof. exact repay_loans_done. Qed.
+Print Assumptions C11_autorepay_loop_never_aborts.
